@@ -5,7 +5,7 @@ import MakoModel.Basic.Unicode
 
 The model takes the *parse tree* as input (in the correspondence it is the tree the real `Lexer` built):
 every node carries its kind, `lineno`, the code string `MessageExtractor.extract_nodes` selects for that
-kind, the filter list of an expression (`escapes`, which the extractor never looks at), the text of a
+kind, the filter list of an expression (`escapes`, handed over together with the expression), the text of a
 `Comment`/`Text` node and the children (`node.nodes` of a tag).
 
 The Python-level call finder (Babel's `extract_python`, Lingua's python extractor) is a parameter
@@ -126,11 +126,18 @@ def pendingFor (tc : List (Nat × Str)) (lineno : Nat) : List (Nat × Str) :=
   | some (l, _) => if l + 1 < lineno then [] else tc
   | none => tc
 
+/-- the `Expression` branch: `code = node.code.code`; `if node.escapes: code = "(%s), (%s,)" % (code, node.escapes)` -/
+def wrapExpr (code esc : Str) : Str := '(' :: code ++ [')', ',', ' ', '('] ++ esc ++ [',', ')']
+
+/-- the code string `extract_nodes` selects for a node (only the expression branch looks at the filter list) -/
+def selectCode (k : Kind) (code esc : Str) : Str :=
+  if k = .expr ∧ esc ≠ [] then wrapExpr code esc else code
+
 mutual
 /-- one iteration of the `for node in nodes` loop: the calls made (own call first, then those of the
     recursive `extract_nodes(child_nodes)`, which starts with a fresh state) and the state afterwards -/
 def runNode {α : Type} (tags : List Str) (proc : Proc α) : Node → St → List (Inv α) × St
-  | .mk k ln code _ text ch, st =>
+  | .mk k ln code0 esc text ch, st =>
     if st.inTC && k == .text && isBlankStr text then ([], st)      -- "Ignore whitespace within translator comments"
     else match k with
     | .comment => ([], commentStep tags st ln text)
@@ -138,6 +145,7 @@ def runNode {α : Type} (tags : List Str) (proc : Proc α) : Node → St → Lis
     | .text => ([], st)
     | .other => ([], st)
     | k =>
+      let code := selectCode k code0 esc
       let tc := pendingFor st.tc ln
       let ts := tc.map (·.2)
       let out := proc code ((ln : Int) - 1) ts
@@ -231,14 +239,22 @@ def extractLingua (finder : Finder) (cfgTags : Str) (nodes : List Node) : List M
 
 /-! ## specification side: where Python lives in a template -/
 
-/-- a place where Python code is written: the node's line, the code, whether it is an expression's filter
-    list, whether it lies below a tag whose children `extract_nodes` never visits -/
+/-- a construct in which Python is written: the node's line, its code, for an expression its filter list
+    (empty when there is none), whether it lies below a tag whose children `extract_nodes` never visits -/
 structure Site where
   lineno : Nat
   code : Str
-  inFilter : Bool
+  filter : Str
   hidden : Bool
   deriving DecidableEq, Repr
+
+/-- the Python texts of a construct -/
+def Site.parts (s : Site) : List Str := if s.filter = [] then [s.code] else [s.code, s.filter]
+
+/-- specification of the one string that carries all Python texts of a construct:
+    the code itself, or `(code), (filters,)` -/
+def Site.text (s : Site) : Str :=
+  if s.filter = [] then s.code else '(' :: s.code ++ [')', ',', ' ', '('] ++ s.filter ++ [',', ')']
 
 /-- specification: the tags whose body is template content of its own (`<%def>`, `<%block>`, `<%call>`,
     `<%ns:def>`); the children of any other node (`<%namespace>` with inline defs, `<%text>`, …) count as
@@ -248,11 +264,10 @@ def Kind.container : Kind → Bool
   | _ => false
 
 mutual
-/-- every Python-bearing place of a node and of **all** its descendants, in document order -/
+/-- every Python-bearing construct among a node and **all** its descendants, in document order -/
 def sitesNode (hidden : Bool) : Node → List Site
   | .mk k ln code esc _ ch =>
-    (if k.pythonBearing then [⟨ln, code, false, hidden⟩] else []) ++
-    (if k = .expr ∧ esc ≠ [] then [⟨ln, esc, true, hidden⟩] else []) ++
+    (if k.pythonBearing then [⟨ln, code, if k = .expr then esc else [], hidden⟩] else []) ++
     sitesList (hidden || !k.container) ch
 def sitesList (hidden : Bool) : List Node → List Site
   | [] => []
